@@ -740,6 +740,86 @@ def run_many_cookies(n, order, rounds):
     return viol
 
 
+def command_dictionary():
+    """words a peer might try as commands, derived from the names the
+    authentication classes themselves define (every suffix of every
+    attribute name at an underscore boundary), minus the six commands of
+    the protocol"""
+    from txdbus import authentication as A
+    words = set()
+    for cls in (A.BusAuthenticator, A.BusCookieAuthenticator,
+                A.BusExternalAuthenticator, A.BusAnonymousAuthenticator,
+                A.ClientAuthenticator):
+        for n in dir(cls):
+            parts = n.strip('_').split('_')
+            for i in range(len(parts)):
+                w = '_'.join(parts[i:])
+                if w and w.isascii() and ' ' not in w:
+                    words.add(w)
+    real = {'AUTH', 'CANCEL', 'BEGIN', 'DATA', 'ERROR', 'NEGOTIATE_UNIX_FD'}
+    return sorted(w for w in words if w not in real and w.upper() not in
+                  real or w in ('auth', 'begin', 'data', 'cancel'))
+
+
+def _task_dictionary(task):
+    """every word of the dictionary, bare and with an argument, in each of
+    the three waiting states of the server: answered ERROR like any unknown
+    command, nothing authenticated, and the exchange continues from where
+    it was"""
+    part, nparts = task
+    res = core.Result()
+    words = command_dictionary()[part::nparts]
+    for w in words:
+        for arg in (b'', b' 6162'):
+            line = w.encode() + arg
+            for state, script, prelude in (
+                    ('auth', ('OK',), []),
+                    ('data', ('CONTINUE', 'OK'), [b'AUTH EXTERNAL']),
+                    ('begin', ('OK',), [b'AUTH EXTERNAL'])):
+                res.count('states')
+                res.count('transitions', 3)
+                res.count('evaluations')
+                res.count('nontrivial')
+                log = []
+                p, t = make_server(_mk_scripted(script, log))
+                model = RefServer(script)
+                try:
+                    p.dataReceived(b'\0')
+                    for l in prelude:
+                        p.dataReceived(l + b'\r\n')
+                        model.line(l)
+                    t.take()
+                    p.dataReceived(line + b'\r\n')
+                    got = classify([l for l in t.take().split(b'\r\n')
+                                    if l], t.disconnecting)
+                    want = model.line(line)
+                    # and the exchange goes on as if nothing had been said
+                    cont = {'auth': b'AUTH EXTERNAL', 'data': b'DATA 6162',
+                            'begin': b'BEGIN'}[state]
+                    p.dataReceived(cont + b'\r\n')
+                    got2 = classify([l for l in t.take().split(b'\r\n')
+                                     if l], t.disconnecting)
+                    want2 = model.line(cont)
+                    if want2 == ['AUTHENTICATED']:
+                        want2 = []
+                    authed = 1 if model.state == 'authed' else 0
+                    ok = got == want and got2 == want2 and \
+                        p.auth_calls == authed
+                    what = 'answered %r then %r to %r (expected %r then ' \
+                        '%r), authenticated %d times (expected %d)' % (
+                            got, got2, cont, want, want2, p.auth_calls,
+                            authed)
+                except Exception as e:
+                    ok = False
+                    what = 'raised %r' % (e,)
+                if not ok:
+                    res.violation('%s/dictionary/%s' % (PROP, state),
+                                  'the line %r in state %r: %s'
+                                  % (line, state, what),
+                                  {'part': 'dictionary'}, size=len(w))
+    return res
+
+
 MANY = [9, 10, 11, 12, 20, 21, 99, 100, 101, 128, 256, 257]
 
 
@@ -1020,7 +1100,10 @@ def run(ctx):
         'connectionAuthenticated() counted; state = (protocol state, script '
         'position, rejection count, digest of the authenticator); the same '
         'for buses whose authenticator subclass offers one, two other, or '
-        'four mechanisms (the REJECTED list is the offered set). part 2: '
+        'four mechanisms (the REJECTED list is the offered set); every word '
+        'derived from the attribute names of the authentication classes, '
+        'bare and with an argument, in each waiting state: an unknown '
+        'command like any other. part 2: '
         'the real EXTERNAL / DBUS_COOKIE_SHA1 / ANONYMOUS mechanisms against '
         'a conforming reference client with right, wrong (7 shapes) and '
         'cancelled exchanges, keyring in a scratch directory; 2-3 '
@@ -1068,12 +1151,18 @@ def run(ctx):
     ctx.map(_task_real, [0])
     ctx.map(_task_framing, [ctx.quick])
     ctx.map(_task_many_cookies, MANY)
+    ctx.map(_task_dictionary, [(i, 8) for i in range(8)])
     ctx.bounds = {'scripts': len(SCRIPTS), 'lines': len(LINES)}
 
 
 def replay(data):
     if 'scenario' in data:
         return explore.replay_violation(data)
+    if data.get('part') == 'dictionary':
+        res = core.Result()
+        for i in range(8):
+            res.merge(_task_dictionary((i, 8)))
+        return [(s, v['what']) for s, v in res.violations.items()]
     if data.get('part') == 'many-cookies':
         return [('%s/%s' % (PROP, t), w)
                 for t, w in run_many_cookies(*data['args'])]
